@@ -748,7 +748,7 @@ def correspond(ctx):
     binfo.append((trows, crows_float))
     ctx.count(('build', trows, crows_float), nontrivial=len(crows) > 0, kind='build:' + origin +
               (':KeyError' if out is None else ''))
-  for _ in range(ctx.n(200, 3000)):
+  for _ in range(ctx.n(150, 3000)):
     t, c = random_meta(ctx.rng)
     add_build(t, c, 'random')
   # (b) trace tie
@@ -789,7 +789,7 @@ def correspond(ctx):
                 c.columns['type'][i], bool(c.columns['isFormula'][i]), c.columns['formula'][i],
                 int(c.columns['reverseCol'][i] or 0)) for i, rid in enumerate(c.row_ids)]
       add_build(trows, crows, 'real')
-  nh, nb = ctx.n(10, 300), ctx.n(10, 14)
+  nh, nb = ctx.n(8, 300), ctx.n(10, 14)
   stats = collections.Counter()
   for i in range(nh):
     try:
@@ -1318,12 +1318,12 @@ def translator_cases(ctx):
                                    rng.choice([None, None, '', 'B', 'back']))
   plain = lambda c: (c.type, bool(c.isFormula), c.formula, c.reverseColId)
   c2d, mods = [], []
-  for _ in range(ctx.n(60, 600)):
+  for _ in range(ctx.n(40, 600)):
     col = rcol(rng.choice(['A', 'B', 'x y']))
     inc_id, inc_def = rng.random() < 0.5, rng.random() < 0.5
     d = schema_mod.col_to_dict(col, include_id=inc_id, include_default=inc_def)
     c2d.append('((%s, %s), %s, %s, %s)' % (S(col.colId), colinfo_lit(plain(col)), B(inc_id), B(inc_def), cdict_lit(d)))
-  for _ in range(ctx.n(80, 800)):
+  for _ in range(ctx.n(50, 800)):
     ids = rng.sample(['A', 'B', 'C', 'D'], rng.randint(1, 4))
     cols = C.OrderedDict((i, rcol(i)) for i in ids)
     sch = C.OrderedDict([('T', schema_mod.SchemaTable('T', cols))])
